@@ -325,7 +325,7 @@ func c07Stream(o *Out, rng *rand.Rand, n int) {
 		}
 		for rep := 0; rep < reps; rep++ {
 			p := g.bytes(L)
-			if L > 97 && rng.Intn(2) == 0 { // let half of them pass the event / port checks
+			if L > 83 && rng.Intn(2) == 0 { // let half of them pass the event / port checks
 				p[83] = byte(rng.Intn(4))
 			}
 			src, isNil := g.src()
@@ -383,6 +383,20 @@ func c07Stream(o *Out, rng *rand.Rand, n int) {
 		src, isNil := g.src()
 		c07Announce(o, kind, v6, g.popts(), src, isNil, p)
 	}
+	// lengths around the minimum (98 / 110), well-formed content
+	for _, v6 := range []bool{false, true} {
+		for d := -4; d <= 4; d++ {
+			for rep := 0; rep < 3; rep++ {
+				p := g.announce(g.bytes(8), v6, uint32(rng.Intn(4)))
+				if d < 0 {
+					p = p[:len(p)+d]
+				} else {
+					p = append(p, []byte{1, 1, 0, 7}[:d]...)
+				}
+				c07Announce(o, "announce-min-length", v6, udp.ParseOptions{MaxNumWant: 100, DefaultNumWant: 50}, []byte{10, 0, 0, byte(rep + 1)}, false, p)
+			}
+		}
+	}
 	// every length byte once
 	for l := 0; l < 256; l += 1 {
 		if !thorough && l%5 != 0 && l < 250 {
@@ -404,7 +418,7 @@ func c07Stream(o *Out, rng *rand.Rand, n int) {
 				continue
 			}
 			p := g.bytes(16 + 20*k + d)
-			if k > 1 && rng.Intn(2) == 0 { // repeats
+			if len(p) >= 56 && rng.Intn(2) == 0 { // repeats
 				copy(p[36:56], p[16:36])
 			}
 			c07Scrape(o, "scrape", []uint32{0, 1, 2, 50, 50, 50, 51, 80, 1<<32 - 1}[rng.Intn(9)], p)
